@@ -650,6 +650,88 @@ def r11_literal_readers_skip_ws(prog, res):
     res.floor("R11.literal_reader_skips_ws", "literal readers with the (val, in, err, tokenList) signature", n, 3)
 
 
+def r12_closing_quote_lookahead(prog, res):
+    """An apostrophe inside a Part 21 string is written twice, so a scanner knows that an apostrophe closes the literal only after it
+    has looked at the character behind it.  For every function that scans a literal by `peek() == APOSTROPHE` / `get()`: on every path,
+    after the scanner consumed an apostrophe other than the opening one, it must evaluate another `peek() == APOSTROPHE` test (either
+    way) or see the stream exhausted (`good()` false / `eof()` true) before it returns.  A return straight after the second apostrophe
+    reads a value that begins with a doubled apostrophe as the empty string and leaves the rest of the literal in the stream."""
+    import pathstate
+    n = 0
+
+    def classify(cn):
+        """('delim'|'good'|'eof', polarity flip) of an atomic terminator condition"""
+        flip = False
+        c = strip(cn)
+        while c is not None and ((c["k"] == "Unary" and c.get("op") == "!") or c["k"] in ("Paren", "Cast")) and c.get("ch"):
+            if c["k"] == "Unary":
+                flip = not flip
+            c = strip(c["ch"][0])
+        if c is None:
+            return None
+        if c["k"] == "Binary" and c.get("op") in ("&&", "||") and not flip:
+            # the block that ends in `A && B` is left on the value of B (A has its own block)
+            return classify(c["ch"][1])
+        if c["k"] == "Binary" and c.get("op") in ("==", "!=") and len(c.get("ch") or []) == 2:
+            a, b = c["ch"]
+            pk = [x for x in (a, b) if any(y["k"] == "Call" and (y.get("fn") or "").endswith("::peek") for y in walk(x))]
+            q = [x for x in (a, b) if x.get("val") == 39 or (strip(x) is not None and strip(x).get("val") == 39)]
+            if pk and q:
+                return ("delim", flip != (c["op"] == "!="))
+        if c["k"] == "Call" and (c.get("fn") or "").endswith("::good"):
+            return ("good", flip)
+        if c["k"] == "Call" and (c.get("fn") or "").endswith("::eof"):
+            return ("eof", flip)
+        return None
+
+    for f in prog.all_functions():
+        if f.component == "test" or f.cfg is None:
+            continue
+        if not any(classify(c) and classify(c)[0] == "delim" for c in f.walk() if c["k"] == "Binary"):
+            continue
+        if not any((c.get("fn") or "").endswith("basic_istream<char>::get") for c in f.calls()):
+            continue
+        bad = {}
+
+        # state: (apostrophes consumed (0, 1, 2 = two or more), the last peek saw an apostrophe, unconfirmed closing candidate)
+        def on_node(nd, ts, env, bad=bad):
+            cnt, pend, unc = ts
+            if nd["k"] == "Call" and (nd.get("fn") or "").endswith("basic_istream<char>::get") and nd.get("np") == 0:
+                if pend:
+                    cnt = min(2, cnt + 1)
+                    return (cnt, False, cnt >= 2)
+                return (cnt, False, False)
+            if nd["k"] == "Return" and unc:
+                bad.setdefault(nd["i"], nd)
+            return ts
+
+        def on_edge(cn, br, ts, env):
+            k = classify(cn)
+            if k is None:
+                return ts
+            kind, flip = k
+            val = (br != flip)
+            if kind == "delim":
+                return (ts[0], val, False)
+            if (kind == "good" and not val) or (kind == "eof" and val):
+                return (ts[0], ts[1], False)
+            return ts
+        try:
+            pathstate.walk(f, (0, False, False), on_node, on_edge=on_edge)
+        except pathstate.Budget as ex:
+            res.broke("R12: %s" % ex)
+            continue
+        n += 1
+        b = sorted(bad.values(), key=lambda x: x["l"])
+        res.add("R12.closing_quote_lookahead", "R12|%s|%s" % (f.relfile(), f.name), f.where(b[0]) if b else f.where(), not b,
+                "every apostrophe consumed after the opening one is followed by a look at the next character before the scanner returns"
+                if not b else
+                "a path returns right after consuming a second apostrophe without looking at the character behind it: a doubled "
+                "apostrophe at the start of a value (a place name like 's-Hertogenbosch) is taken for the empty string and the rest of "
+                "the literal stays in the stream")
+    res.floor("R12.closing_quote_lookahead", "scanners of string literals (peek/get idiom)", n, 1)
+
+
 def run(prog, res, tier):
     sev = sev_enum(prog)
     if sev is None:
@@ -665,3 +747,4 @@ def run(prog, res, tier):
     r9_lookahead_not_stale(prog, res)
     r10_integer_buffer_fits(prog, res)
     r11_literal_readers_skip_ws(prog, res)
+    r12_closing_quote_lookahead(prog, res)
